@@ -494,6 +494,18 @@ def run(repo: str, tier: str, seed: int, replay_dir=None, write_ev=True, jobs=No
                             a.startswith(("short:", "fail:")) and b.startswith(("short:", "fail:"))):
                         continue
                     pair_hist.append(pre + [{"op": "conv", "prog": a, "obj": oid}, {"op": "conv", "prog": b, "obj": oid}])
+        # caller-made changes of process state before a conversion (recursion limit raised after the
+        # import, other cwd, other argv): [env; conv(p)] for every pool program; the monitors compare
+        # the process state after the conversion with what the caller had set
+        env_ops = [{"op": "env", "what": "recursionlimit", "value": 5000}, {"op": "env", "what": "recursionlimit", "value": 3000},
+                   {"op": "env", "what": "chdir", "value": "/usr"}, {"op": "env", "what": "argv", "value": ["oneliner", "-Cunparser=oneliner", "x.py"]}]
+        n_env = 0
+        for e in env_ops:
+            for a in A_keys:
+                if a == "fail:fail_big" and e["what"] != "recursionlimit":
+                    continue
+                pair_hist.append([e, {"op": "conv", "prog": a, "obj": None}])
+                n_env += 1
         pjobs = []
         CH = 150
         for i in range(0, len(pair_hist), CH):
@@ -503,7 +515,7 @@ def run(repo: str, tier: str, seed: int, replay_dir=None, write_ev=True, jobs=No
             for f in r["failures"]:
                 pair_fail.append((g, f))
             _merge(cov, r, states, transitions, desc_digests)
-        cov["phases"]["program_pairs"] = {"histories": len(pair_hist), "ordered_pairs": len(A_keys) * len(B_keys) - len(B_keys),
+        cov["phases"]["program_pairs"] = {"histories": len(pair_hist), "of_which_env_then_conv": n_env, "ordered_pairs": len(A_keys) * len(B_keys) - len(B_keys),
                                           "option_models": ["none"] + ["|".join(m.get(n, "-") for n in OPTION_NAMES) for m in P["pair_models"]],
                                           "exhaustive_over": "all ordered pairs (A, B), A in pool incl. failing programs, B in pool",
                                           "failures": len(pair_fail)}
